@@ -3,7 +3,7 @@
 cd "$(dirname "$0")/.." 2>/dev/null || true
 [ -n "$VP_RUN_REPO" ] && export VERIF_REPO="$VP_RUN_REPO"
 ./setup >/dev/null 2>&1
-for seed in 2 3 4 5 6 7 8 9; do
+for seed in ${SWEEP_SEEDS:-1 2 3 4 5 6 7 8 9}; do
   for p in C01 C02 C03 C04 C05 C06 C07 C08 C09 C10 C11 C12 C13 C14 C15 C16 C17 C18 C19 C20; do
     VERIF_SEED=$seed ./check $p quick > /tmp/sweep-$p-$seed.log 2>&1 || { echo "ALARM seed=$seed $p"; grep -A25 VIOLATION /tmp/sweep-$p-$seed.log | head -60; }
   done
